@@ -28,14 +28,14 @@ NSPOOL = [("http://e/", "ex"), ("http://f/", "f"), ("http://www.wikidata.org/ent
           ("http://www.w3.org/1999/02/22-rdf-syntax-ns#", "rdf")]
 D = os.path.join(core.WORK, "c10")
 
-FINDINGS = {"nonIri_answer": "C10-F1", "prefixed_label": "C10-F2", "at_in_item": "C10-F3",
-            "repeated_answer": "C10-F4", "same_shape_name": "C10-F5", "tau_literal": "C10-F6"}
+FINDINGS = {"nonIri_answer": "C10-F1", "same_shape_name": "C10-F5", "tau_literal": "C10-F6",
+            "repeated_statement": "C10-F7", "at_in_label": "C10-F8"}
 # which root causes may explain which kind of oracle failure
-EXPLAINS = {"raised": ["at_in_item", "tau_literal"],
-            "instances": ["nonIri_answer", "prefixed_label"],
-            "text-raised": ["nonIri_answer", "prefixed_label", "tau_literal"],
-            "repeated": ["repeated_answer"],
-            "text": ["nonIri_answer", "prefixed_label", "repeated_answer", "same_shape_name"]}
+EXPLAINS = {"raised": ["at_in_label", "tau_literal"],
+            "instances": ["nonIri_answer"],
+            "text-raised": ["nonIri_answer", "tau_literal"],
+            "repeated": ["repeated_statement"],
+            "text": ["nonIri_answer", "repeated_statement", "same_shape_name"]}
 
 
 # ---------------------------------------------------------------------------------------------
@@ -265,7 +265,9 @@ SPARQL_KW = ["select", "SELECT", "Select"]
 
 def gen_sparql(r, ns, G, typing, classes, nodes, props):
     def term(iri):
-        return mkref(r, iri, ns, False)
+        t = mkref(r, iri, ns, False)
+        # a SPARQL prefixed name cannot carry '@' in its local part: write such IRIs in brackets
+        return ["A", iri] if (t[0] == "P" and not re.fullmatch(r"[A-Za-z0-9_]*", t[2])) else t
     k = r.random()
     v = r.choice(["x", "s", "node"])
     if k < 0.4:
@@ -321,6 +323,8 @@ def gen_target(r, G, typing, classes, nodes, props):
         tg["all"] = True
     if mode in ("smap", "all+smap"):
         labels = ["http://sh/S%d" % i for i in range(3)] + ["http://e/Lab"]
+        if r.random() < 0.03:
+            labels.append("http://sh/a@b")      # '@' inside a label (the fixed syntax splits at the last '@')
         if r.random() < 0.06 and classes:
             labels.append(SHAPES_NS + local_name(r.choice(classes)))   # collides with the shape name of a class
         items = []
@@ -467,7 +471,7 @@ def sparql_bodies(c):
                 continue
             if line[-1] == ",":
                 line = line[:-1]
-            sels.append(line.split("@")[0])
+            sels.append(line.rsplit("@", 1)[0])
     out = []
     for s in sels:
         s = s.strip()
@@ -1058,6 +1062,23 @@ def reproducer_case(f):
     return {"kind": "ast", "tg": rp["tg"], "graph": rp["graph"], "idx": 0, "layout": None}
 
 
+def load_corpus():
+    """regression cases of repaired defects (corpus/C10/*.json): replayed first, must pass"""
+    d = os.path.join(core.VERIF, "corpus", "C10")
+    out = []
+    if os.path.isdir(d):
+        for fn in sorted(os.listdir(d)):
+            if fn.endswith(".json"):
+                with open(os.path.join(d, fn)) as f:
+                    rp = json.load(f)
+                c = dict(rp["case"])
+                c.setdefault("kind", "ast")
+                c.setdefault("layout", None)
+                c["corpus"] = fn
+                out.append(c)
+    return out
+
+
 def run(tier, seed, replay=None):
     run = core.Run("C10", tier, seed)
     bs = core.build("C10")
@@ -1074,7 +1095,11 @@ def run(tier, seed, replay=None):
             c["idx"] = i
     else:
         n = int(os.environ.get("VERIF_C10_N", 25000 if tier == "thorough" else 800))
-        cases = gen_cases(tier, rnd, n)
+        corpus = load_corpus()
+        cases = corpus + gen_cases(tier, rnd, n)
+        for i, c in enumerate(cases):
+            c["idx"] = i
+    else_corpus = [c for c in cases if c.get("corpus")]
     res = evaluate(cases, bs, run, findings, rnd)
 
     # pinned reproducers of the known findings
@@ -1144,6 +1169,8 @@ def run(tier, seed, replay=None):
         "disagreements_model_vs_impl": len(res["corr_fail"]),
         "dict_key_order_equal": res["order_same"], "dict_key_order_differs": res["order_diff"],
         "vm_compute_crosschecked": vm_n,
+        "corpus_cases_replayed_first": len(else_corpus),
+        "corpus_cases_failing": sorted({sf["case"].get("corpus") for sf in res["spec_fail"] if sf["case"].get("corpus")}),
         "samples": samples,
     })
     run.assumptions = [
